@@ -518,6 +518,17 @@ func TestVerifC26(t *testing.T) {
 				c.Eval()
 				got, attrs, twice := rig.feed(pkt)
 				class := fmt.Sprintf("ext=%s|pad=%s", cs.Ext, cs.Pad)
+				// violation keys carry only whether an extension / padding is present (one rewrite
+				// defect would otherwise produce a key per layout)
+				coarse := "ext=absent"
+				if cs.ext != 0 {
+					coarse = "ext=present"
+				}
+				if cs.pd != 0 {
+					coarse += "|pad=present"
+				} else {
+					coarse += "|pad=absent"
+				}
 				rep := func() c26Case {
 					out := cs
 					out.Packet = fmt.Sprintf("%x", pkt)
@@ -533,14 +544,14 @@ func TestVerifC26(t *testing.T) {
 				}
 				switch {
 				case twice:
-					c.Violation("delivered-twice|"+class, "one RTX packet produced two packets on the track — case "+vkit.Short(rep()), rep())
+					c.Violation("delivered-twice|"+coarse, "one RTX packet produced two packets on the track — case "+vkit.Short(rep()), rep())
 				case want == nil && got != nil:
 					c.Violation("not-dropped|"+why, fmt.Sprintf("RTX packet too short to carry an OSN (%s) was delivered instead of dropped — case %s", why, vkit.Short(rep())), rep())
 				case want != nil && got == nil:
-					c.Violation("dropped|"+class, "well-formed RTX packet was dropped — case "+vkit.Short(rep()), rep())
+					c.Violation("dropped|"+coarse, "well-formed RTX packet was dropped — case "+vkit.Short(rep()), rep())
 				case want != nil:
 					if d := c26Compare(want, got, cs.CC, pkt[0]&0x20 != 0); d != "" {
-						c.Violation("field:"+d+"|"+class, fmt.Sprintf("delivered packet differs from the RFC 4588 original in %s: want %x — case %s", d, want[:min(len(want), 80)], vkit.Short(rep())), rep())
+						c.Violation("field:"+d+"|"+coarse, fmt.Sprintf("delivered packet differs from the RFC 4588 original in %s: want %x — case %s", d, want[:min(len(want), 80)], vkit.Short(rep())), rep())
 					} else if idx%7 == 0 || cs.CC == 15 {
 						c.Distinct(class + "|delivered")
 						if attrs != nil {
